@@ -1,6 +1,6 @@
 #!/bin/bash
 # usage: try_seed.sh <patch> <prop> [more props]  -- apply a seeded change to /repo, run the checks, undo it
-patch=$1; shift
+patch=$(readlink -f "$1"); shift
 cd /repo && git apply "$patch" || { echo "patch does not apply"; exit 2; }
 cd /verif
 for p in "$@"; do
